@@ -291,8 +291,7 @@ Definition spec_ok_x (g : graph) (r : run) : bool :=
 
 Definition region_bits (g : graph) : nat :=
   (if region_rename g then 1 else 0) + (if region_private g then 2 else 0)
-  + (if region_only_empty g then 4 else 0) + (if region_only_dup g then 8 else 0)
-  + (if region_uncounted g then 16 else 0).
+  + (if region_only_empty g then 4 else 0) + (if region_only_dup g then 8 else 0).
 
 (* acyclic = the toposort model succeeds; the Spec is only asked about legal programs (region
    value 32 marks the programs that are not: ambiguous identifiers, cycles, self use).
